@@ -49,7 +49,7 @@ add("C07", "exploration", "property-based testing/fuzzing of the datagram and to
     "Mutated, replayed, misplaced, boundary-shaped and random datagrams are presented from every address class and to clients in every state; no call may unwind and a non-authentic datagram must leave every observable of server and clients unchanged; genuine traffic must still work afterwards. Token bytes are fuzzed through read -> client construction -> update.",
     NETNOTE, "DESIGN.md 4/C07")
 
-add("C04", "exploration", "model-based property-based testing: pools of genuine payload datagrams presented in generated orders/forms against a set-of-accepted-sequences reference model of the replay window",
+add("C04", "exploration", "model-based property-based testing: pools of genuine payload datagrams presented in generated orders/forms (payloads and the endpoints' own keep-alives) against a set-of-accepted-sequences reference model of the replay window",
     "Genuine, replayed, mutated, re-addressed, cross-session, cross-direction and other-protocol / other-key re-sealed payload datagrams are presented to live sessions with sequence choices aimed at the window boundaries (s, s+-1, s-255, s-256, s-257, multiples of 256) at counter magnitudes up to 2^64-5001; both directions of the property are checked (only authentic ones surface, at most once; a fresh in-window genuine one must surface, also after forgeries with the same sequence).",
     NETNOTE, "DESIGN.md 4/C04")
 add("C19", "exploration", "property-based testing of reply size/address against provenance-labelled inputs in generated server states",
@@ -68,7 +68,7 @@ add("C17", "exploration", "exhaustive single-bit / truncation tampering of sampl
     "Every bit and every truncation length of a sample of every sealed packet kind and direction, every bit of a token's sealed part, nonce, protocol id and expiry, and every cross-key / cross-protocol opening must fail; in generated histories every emitted datagram is attributed to a key by trial decryption and no (endpoint, key) pair may seal two different datagrams with one sequence number.",
     NETNOTE, "DESIGN.md 4/C17")
 
-add("C18", FE, "stateful property-based testing over loss/delay/duplication schedules, tick lengths, timeouts, address lists and limit changes, with a reference model of the last authentic fresh packet per side and a bounded-liveness check after faults stop",
+add("C18", FE, "stateful property-based testing over loss/delay/duplication schedules, tick lengths, timeouts, address lists and limit changes, with a reference model of the last authentic fresh packet per side and a bounded-liveness check after faults stop; plus small-scope enumeration of every address-list length 1-32 x position of the answering address",
     "The harness owns every datagram and both clocks; timeouts are compared with the model at every update (must fire / must not fire, on both sides, regardless of forged or replayed traffic), half-open sessions must vanish at token expiry, denials must be explained by a full server, and after the network heals every client still connecting under the stated preconditions must be connected on both sides within a computed bound.",
     NETNOTE, "DESIGN.md 4/C18")
 
